@@ -876,7 +876,7 @@ fn generate(tier: Tier, rng: &mut Rng, em: &mut Emit) {
     }
     // the assembly algorithm alone, on synthetic translation results (after the programs, so that their stream is unchanged)
     let mut r2 = rng.fork();
-    gen_asm(&mut r2, em, if tier == Tier::Quick { 1_500 } else { 20_000 });
+    gen_asm(&mut r2, em, if tier == Tier::Quick { 1_500 } else { 8_000 });
 }
 
 fn main() {
